@@ -407,6 +407,7 @@ func treeOf(es []ev.E) (root *tnode, err error) {
 
 type matcher struct {
 	omitEmpty bool // struct fields that are empty may be absent (default omit behaviour)
+	lenient   bool // unknown keys are allowed and absent fields must be zero (unmarshal side: C09, C21)
 	visited   map[[2]uintptr]bool
 }
 
@@ -699,7 +700,7 @@ func (m *matcher) match(n *tnode, v reflect.Value, path string) string {
 			return m.match(n, reflect.Value{}, path)
 		}
 		ek := t.Elem().Kind()
-		if isNumericElem(ek) {
+		if isNumericElem(ek) && n.kind != tList {
 			at, want, _ := leBytes(v)
 			if n.kind != tArray || n.at != at || n.n != uint64(v.Len()) || !bytes.Equal(n.data, want) {
 				return fmt.Sprintf("%s: expected %s array of %d elements %x, events carry %s", path, at, v.Len(), clipB(want), n)
@@ -795,6 +796,9 @@ func (m *matcher) match(n *tnode, v reflect.Value, path string) string {
 				}
 			}
 			if hit == nil {
+				if m.lenient {
+					continue // unknown keys are skipped by the builder (C09/C21 lenient matching)
+				}
 				return fmt.Sprintf("%s: events carry key %q that matches no field of %s", path, k.data, t)
 			}
 			if hit.seen {
@@ -806,7 +810,7 @@ func (m *matcher) match(n *tnode, v reflect.Value, path string) string {
 			}
 		}
 		for _, f := range fields {
-			if !f.seen && !(m.omitEmpty && isEmptyValue(f.v)) {
+			if !f.seen && !(m.omitEmpty && isEmptyValue(f.v)) && !(m.lenient && f.v.IsZero()) {
 				return fmt.Sprintf("%s: field %s (non-empty) does not appear in the events", path, f.name)
 			}
 		}
